@@ -29,6 +29,9 @@ import (
 //	multiport-too-many    more than 15 port slots (a range uses 2)   -> "too many ports specified"
 //	multiport-needs-proto --sports/--dports before -p tcp|udp|udplite|sctp|dccp -> "multiport needs `-p tcp', ..."
 //	port-needs-proto      --dport/--sport without such a -p
+//	icmp-match-needs-icmp-proto   "-m icmp --icmp-type" in a rule without a positive "-p icmp" ("-m icmp6" / "-p icmpv6"):
+//	                      passes --test but the real load fails in the kernel (probed in a private netns, Linux 6.18,
+//	                      nf_tables backend: "RULE_APPEND failed (Invalid argument)"; x_tables has the same check)
 func parseIptables(line string, t []tok) (*rule, error) {
 	r := &rule{text: line}
 	vocab := func(tk, why string) error { return &VocabError{Kind: Iptables, Rule: line, Token: tk, Why: why} }
@@ -67,6 +70,7 @@ func parseIptables(line string, t []tok) (*rule, error) {
 	add := func(m matchFn) { r.matches = append(r.matches, m) }
 	rpfInvert := false
 	rpfIdx := -1
+	needICMP, needICMP6 := false, false
 
 	for i < len(t) {
 		s := t[i].s
@@ -351,10 +355,12 @@ func parseIptables(line string, t []tok) (*rule, error) {
 			if err != nil {
 				return nil, err
 			}
-			if !(protoSet && !protoNeg) {
-				// the kernel match is registered for that protocol only; without a positive "-p" its meaning
-				// is not modelled. (With "-p <other protocol>" the match below simply never holds.)
-				return nil, vocab(s, "icmp match without a preceding positive -p is not modelled")
+			// checked once the whole rule is read: the kernel only accepts this match in a rule whose
+			// protocol is (positively) icmp / icmpv6
+			if want == ProtoICMP {
+				needICMP = true
+			} else {
+				needICMP6 = true
 			}
 			ts, cs, hasCode := strings.Cut(a, "/")
 			ty, err1 := strconv.Atoi(ts)
@@ -436,6 +442,12 @@ func parseIptables(line string, t []tok) (*rule, error) {
 	}
 	if neg {
 		return nil, vocab("!", "dangling negation")
+	}
+	if needICMP && !(protoSet && !protoNeg && proto == ProtoICMP) {
+		return nil, load("icmp-match-needs-icmp-proto", "-m icmp is only accepted in a rule with -p icmp (kernel: RULE_APPEND failed (Invalid argument))")
+	}
+	if needICMP6 && !(protoSet && !protoNeg && proto == ProtoICMPv6) {
+		return nil, load("icmp-match-needs-icmp-proto", "-m icmp6 is only accepted in a rule with -p icmpv6 (kernel: RULE_APPEND failed (Invalid argument))")
 	}
 	if rpfIdx >= 0 {
 		inv := rpfInvert
